@@ -53,7 +53,7 @@ L == Row.layout   K == Row.k   H == Row.h
 
 Cells(S) == { <<m, Row.o[m + 1]>> : m \in S }
 Rep1(prop, kind, S, extra) ==
-  S = {} \/ Bad([prop |-> prop, kind |-> kind, source |-> Source, obj |-> Row.obj, layout |-> L,
+  S = {} \/ BadB([prop |-> prop, kind |-> kind, source |-> Source, obj |-> Row.obj, layout |-> L,
                  key |-> K, mode |-> H, ncells |-> Cardinality(S), cells |-> Cells(S),
                  extra |-> extra])
 
@@ -69,7 +69,7 @@ C10 == (Leaf /\ IsPlain) => Rep1("C10", IF CasePair(Out, L, K) THEN "caps-letter
 C11 == (Leaf /\ IsPlain) => Rep1("C11", "abstraction", C11Bad(Out, L, K, H), <<>>)
 C12 == (Leaf /\ IsPlain /\ K = "Escape") =>
           LET miss == C12Missing(Out, L, H) IN
-          miss = {} \/ Bad([prop |-> "C12", kind |-> "untypeable", source |-> Source, layout |-> L,
+          miss = {} \/ BadB([prop |-> "C12", kind |-> "untypeable", source |-> Source, layout |-> L,
                             mode |-> H, chars |-> miss])
 C15 == (Leaf /\ IsPlain) => Rep1("C15", "numpad-editing", C15Bad(Out, L, K, H), <<>>)
 (* C16 on all 30 objects: the row's own outputs *)
@@ -82,7 +82,7 @@ C17 == (Leaf /\ ~IsPlain) =>
 PlainSig(i) == [ r \in 1..248 |-> R[i * 248 + r].o ]
 C17Distinct == (lo = 1 /\ hi = NRows) =>
    \A i, j \in 0..9 : i < j => (PlainSig(i) # PlainSig(j)
-       \/ Bad([prop |-> "C17", kind |-> "indistinct", a |-> LayoutNames[i + 1], b |-> LayoutNames[j + 1]]))
+       \/ BadB([prop |-> "C17", kind |-> "indistinct", a |-> LayoutNames[i + 1], b |-> LayoutNames[j + 1]]))
 
 (* TLC stops at the first violated invariant of a state, which would let a violation of one
    property mask another property's violation in the same row: evaluate all of them (a tuple is
